@@ -13,11 +13,11 @@ pub enum Pat {
     True,
     False,
     Tuple(Vec<Pat>),
-    /// enum E { A, B(u8), C(bool, bool) }
+    /// enum E { A, B(u8), C(bool, bool, bool) }
     EnumA,
     EnumB(Box<Pat>),
-    EnumC(Box<Pat>, Box<Pat>),
-    /// `E::C(p)`: too few sub-patterns for the variant C(bool, bool) - ill-typed, matches nothing
+    EnumC(Box<Pat>, Box<Pat>, Box<Pat>),
+    /// `E::C(p)`: too few sub-patterns for the variant C(bool, bool, bool) - ill-typed, matches nothing
     EnumCShort(Box<Pat>),
     /// struct S { a: u8, b: bool, c: i8 }: the listed (field index, pattern) pairs in the written order, `..` if the flag is set
     Struct(Vec<(usize, Pat)>, bool),
@@ -30,7 +30,7 @@ pub enum Val {
     Tuple(Vec<Val>),
     A,
     B(i64),
-    C(bool, bool),
+    C(bool, bool, bool),
     S(i64, bool, i64),
 }
 
@@ -63,7 +63,7 @@ fn matches(p: &Pat, v: &Val) -> bool {
         (Pat::Tuple(ps), Val::Tuple(vs)) => ps.len() == vs.len() && ps.iter().zip(vs).all(|(p, v)| matches(p, v)),
         (Pat::EnumA, Val::A) => true,
         (Pat::EnumB(p), Val::B(x)) => matches(p, &Val::Int(*x)),
-        (Pat::EnumC(p, q), Val::C(a, b)) => matches(p, &Val::Bool(*a)) && matches(q, &Val::Bool(*b)),
+        (Pat::EnumC(p, q, r), Val::C(a, b, c)) => matches(p, &Val::Bool(*a)) && matches(q, &Val::Bool(*b)) && matches(r, &Val::Bool(*c)),
         (Pat::Struct(fs, _), Val::S(..)) => fs.iter().all(|(i, p)| matches(p, &s_field_val(v, *i))),
         _ => false,
     }
@@ -84,7 +84,7 @@ fn show(p: &Pat, k: &mut usize) -> String {
         Pat::Tuple(ps) => format!("({})", ps.iter().map(|p| show(p, k)).collect::<Vec<_>>().join(", ")),
         Pat::EnumA => "E::A".into(),
         Pat::EnumB(p) => format!("E::B({})", show(p, k)),
-        Pat::EnumC(p, q) => format!("E::C({}, {})", show(p, k), show(q, k)),
+        Pat::EnumC(p, q, r) => format!("E::C({}, {}, {})", show(p, k), show(q, k), show(r, k)),
         Pat::EnumCShort(p) => format!("E::C({})", show(p, k)),
         Pat::Struct(fs, rest) => {
             let mut parts: Vec<String> = fs.iter().map(|(i, p)| format!("{}: {}", S_FIELDS[*i], show(p, k))).collect();
@@ -107,14 +107,14 @@ fn ty_name(t: &Ty) -> String {
 pub fn program(t: &Ty, arms: &[Pat]) -> String {
     let mut k = 0;
     let body = arms.iter().enumerate().map(|(i, p)| format!("        {} => {}u8,", show(p, &mut k), i + 1)).collect::<Vec<_>>().join("\n");
-    format!("enum E {{ A, B(u8), C(bool, bool) }}\nstruct S {{ a: u8, b: bool, c: i8 }}\npub fn main(x: {}, z: bool) -> u8 {{\n    match x {{\n{body}\n    }}\n}}", ty_name(t))
+    format!("enum E {{ A, B(u8), C(bool, bool, bool) }}\nstruct S {{ a: u8, b: bool, c: i8 }}\npub fn main(x: {}, z: bool) -> u8 {{\n    match x {{\n{body}\n    }}\n}}", ty_name(t))
 }
 
 /// the same match with arm bodies that update a variable of the enclosing scope: only the body of the selected arm may take effect
 pub fn program_mut(t: &Ty, arms: &[Pat]) -> String {
     let mut k = 0;
     let body = arms.iter().enumerate().map(|(i, p)| format!("        {} => {{ acc = acc * 2u16 + {}u16; {}u16 }}", show(p, &mut k), i + 1, i + 1)).collect::<Vec<_>>().join("\n");
-    format!("enum E {{ A, B(u8), C(bool, bool) }}\nstruct S {{ a: u8, b: bool, c: i8 }}\npub fn main(x: {}, z: bool) -> u16 {{\n    let mut acc = 1u16;\n    let r = match x {{\n{body}\n    }};\n    acc * 16u16 + r\n}}", ty_name(t))
+    format!("enum E {{ A, B(u8), C(bool, bool, bool) }}\nstruct S {{ a: u8, b: bool, c: i8 }}\npub fn main(x: {}, z: bool) -> u16 {{\n    let mut acc = 1u16;\n    let r = match x {{\n{body}\n    }};\n    acc * 16u16 + r\n}}", ty_name(t))
 }
 
 /// representative values: whole domain for small integer types, boundary-induced regions otherwise
@@ -184,7 +184,9 @@ fn domain(t: &Ty, arms: &[Pat]) -> Vec<Val> {
             v.extend((0..=255).map(Val::B));
             for a in [false, true] {
                 for b in [false, true] {
-                    v.push(Val::C(a, b));
+                    for c in [false, true] {
+                        v.push(Val::C(a, b, c));
+                    }
                 }
             }
             v
@@ -222,7 +224,7 @@ fn encode(t: &Ty, v: &Val, out: &mut Vec<bool>) {
                         out.push((x >> (7 - i)) & 1 == 1);
                     }
                 }
-                Val::C(a, b) => out.extend([true, false, *a, *b]),
+                Val::C(a, b, c) => out.extend([true, false, *a, *b, *c]),
                 _ => panic!(),
             }
             while out.len() < start + 10 {
@@ -248,7 +250,7 @@ fn well_shaped(t: &Ty, p: &Pat) -> bool {
         (Ty::Tuple(ts), Pat::Tuple(ps)) => ts.len() == ps.len() && ts.iter().zip(ps).all(|(t, p)| well_shaped(t, p)),
         (Ty::Enum, Pat::EnumA) => true,
         (Ty::Enum, Pat::EnumB(q)) => well_shaped(&Ty::Int("u8", 0, 255), q),
-        (Ty::Enum, Pat::EnumC(a, b)) => well_shaped(&Ty::Bool, a) && well_shaped(&Ty::Bool, b),
+        (Ty::Enum, Pat::EnumC(a, b, c)) => well_shaped(&Ty::Bool, a) && well_shaped(&Ty::Bool, b) && well_shaped(&Ty::Bool, c),
         (Ty::Struct, Pat::Struct(fs, _)) => fs.iter().all(|(i, q)| well_shaped(&s_field_ty(*i), q)),
         _ => false,
     }
@@ -278,7 +280,7 @@ fn missing_cases(e: &garble_lang::Error) -> Option<Vec<Pat>> {
             }
             PatternEnum::EnumUnit(_, v) if v == "A" => Pat::EnumA,
             PatternEnum::EnumTuple(_, v, fs) if v == "B" && fs.len() == 1 => Pat::EnumB(Box::new(conv(&fs[0])?)),
-            PatternEnum::EnumTuple(_, v, fs) if v == "C" && fs.len() == 2 => Pat::EnumC(Box::new(conv(&fs[0])?), Box::new(conv(&fs[1])?)),
+            PatternEnum::EnumTuple(_, v, fs) if v == "C" && fs.len() == 3 => Pat::EnumC(Box::new(conv(&fs[0])?), Box::new(conv(&fs[1])?), Box::new(conv(&fs[2])?)),
             _ => return None,
         })
     }
@@ -439,7 +441,7 @@ fn rand_pat(rng: &mut Rng, t: &Ty) -> Pat {
             1 => Pat::EnumA,
             2 | 3 => Pat::EnumB(Box::new(rand_int_pat(rng, 0, 255))),
             _ => {
-                if rng.below(8) == 0 { Pat::EnumCShort(Box::new(rand_pat(rng, &Ty::Bool))) } else { Pat::EnumC(Box::new(rand_pat(rng, &Ty::Bool)), Box::new(rand_pat(rng, &Ty::Bool))) }
+                if rng.below(8) == 0 { Pat::EnumCShort(Box::new(rand_pat(rng, &Ty::Bool))) } else { Pat::EnumC(Box::new(rand_pat(rng, &Ty::Bool)), Box::new(rand_pat(rng, &Ty::Bool)), Box::new(rand_pat(rng, &Ty::Bool))) }
             }
         },
     }
@@ -549,7 +551,7 @@ fn directed(t: &Ty) -> Vec<Vec<Pat>> {
             match t {
                 Ty::Bool => vec![Pat::True, Pat::False],
                 Ty::Int(_, lo, hi) => vec![Pat::Int(*lo), Pat::Incl(*lo, *lo / 2 + *hi / 2)],
-                Ty::Enum => vec![Pat::EnumA, Pat::EnumB(Box::new(Pat::Wild)), Pat::EnumC(Box::new(Pat::Wild), Box::new(Pat::Wild))],
+                Ty::Enum => vec![Pat::EnumA, Pat::EnumB(Box::new(Pat::Wild)), Pat::EnumC(Box::new(Pat::Wild), Box::new(Pat::Wild), Box::new(Pat::Wild))],
                 Ty::Struct => vec![Pat::Struct(vec![(0, Pat::Int(0))], true), Pat::Struct(vec![(1, Pat::True)], true)],
                 _ => vec![],
             }
